@@ -439,7 +439,7 @@ def check_case(res, drv, spec, mk_circ, det, noise_sim, tag, ref_clean=None):
     for be in ("dm", "stab"):
         impl[be] = run_impl(mk_circ(), be, noise_sim, det)      # a fresh circuit (fresh noise objects) per run
     seq = impl["stab"]["seq"]
-    lines = [model_line(dims, impl[be]["enc"], be, noise_sim, det, want_mixdm=(be == "stab")) for be in ("dm", "stab")]
+    lines = [model_line(dims, impl[be]["enc"], be, noise_sim, det, want_mixdm=(be == "stab" and n <= 4)) for be in ("dm", "stab")]
     reps = dict(zip(("dm", "stab"), drv.batch(lines)))
     inp = dict(tag=tag, ne=spec["ne"], np=spec["np"], nc=spec["nc"], det=det, noise_sim=noise_sim, ops=impl["dm"]["enc"], spec=repr(spec))
     res.sample(lines[1] + " -> " + reps["stab"]["_raw"][:200])
@@ -536,8 +536,7 @@ def check_case(res, drv, spec, mk_circ, det, noise_sim, tag, ref_clean=None):
         ref = sum(p * du.stab_density(t) for p, t in mix)
         if not du.mat_close(ref, rho):
             flags_nonunif = reps["stab"].get("nonunif") == "1"
-            flags_loss = reps["stab"].get("lossmeas") == "1"
-            if m_loss and (flags_loss or True) and abs(float(np.trace(rho).real) - float(np.trace(ref).real)) > 1e-9:
+            if m_loss and abs(float(np.trace(rho).real) - float(np.trace(ref).real)) > 1e-9:
                 res.violation(F_RENORM, "backends disagree: the density-matrix measurement renormalised away the photon-loss weight", input=inp)
             elif m_noise and flags_nonunif:
                 res.violation(F_BRANCH, "backends disagree after a measurement whose outcome distribution differs between the branches of the mixture",
@@ -550,7 +549,7 @@ def check_case(res, drv, spec, mk_circ, det, noise_sim, tag, ref_clean=None):
             if dm_ok and st_ok and reps["dm"].get("nan") != "1" and "m" in reps["stab"]:
                 a = du.parse_mat(reps["dm"]).key()
                 b = du.parse_mat(reps["stab"]).key()
-                if a != b and not (reps["stab"].get("nonunif") == "1" or reps["stab"].get("lossmeas") == "1"):
+                if a != b and reps["stab"].get("nonunif") != "1":
                     res.exact_break("model:dm-vs-mixture", input=inp, impl="agree", model="model's two backends differ")
     elif "err" in impl["stab"] and "state" in impl["dm"]:
         # D37: loss rate 1 followed by depolarizing empties the mixture
@@ -884,7 +883,7 @@ def search(ctx, res, proof_broken):
     for k in range(300):
         spec = gen_circuit(rng, False, with_meas=False, nmax=3)
         check_case(res, drv, spec, lambda: build(spec)[0], rng.randint(0, 1), True, "search-random")
-        if [v for v in res.violations if v["key"] not in (F_RENORM, F_BRANCH, F_D37, F_MIXCONV)]:
+        if [v for v in res.violations if v["key"] != F_BRANCH]:
             break
     drv.close()
 
@@ -907,14 +906,14 @@ def _limit_known(res, keys, cap=3):
 
 def run(ctx):
     res = Result()
-    _limit_known(res, (F_RENORM, F_BRANCH, F_D37, F_MIXCONV))
+    _limit_known(res, (F_BRANCH,))
     res.rule = ("one evaluation = one compile of one circuit on one backend with one switch setting; non-trivial = the circuit carries at "
                 "least one non-NoNoise noise and at least one two-qubit or measurement operation; distinct by (encoded sequence, backend, switches)")
     drv = Driver()
     rng = ctx.rng
     n_circ = 90 if ctx.quick else 900
     for ci in range(n_circ):
-        nmax = (3 if ci % 3 else 4) if ctx.quick else (5 if ci % 12 == 0 else 4 if ci % 2 else 3)
+        nmax = (3 if ci % 3 else 4) if ctx.quick else (5 if ci % 25 == 0 else 4 if ci % 2 else 3)
         spec = gen_circuit(rng, ctx.quick, with_meas=(ci % 3 != 0), nmax=nmax)
         det = rng.randint(0, 1)
         r_on, impl, reps = check_case(res, drv, spec, lambda: build(spec)[0], det, True, "noise-on")
